@@ -39,14 +39,10 @@ Section full.
 
   Lemma hexec_step_exec s hs l s' hs' : hexec J E (s, hs) (HStep l) = Next (s', hs') → ∃ cs, exec J E s l = Next (s', cs).
   Proof.
-    destruct l; simpl; try done;
-      match goal with |- context [exec J E s ?l] => destruct (exec J E s l) as [[s1 cm]| |e|e] end; try done.
-    - intros [= <- <-]. by exists cm.
-    - intros Hx. apply rbind_Next in Hx as (hs1 & _ & Heq). injection Heq as <- <-. by exists cm.
-    - intros [= <- <-]. by exists cm.
-    - intros [= <- <-]. by exists cm.
-    - intros [= <- <-]. by exists cm.
-    - intros [= <- <-]. by exists cm.
+    destruct l as [w t x| |ev|w i|x|x|x]; unfold hexec; cbv beta iota; try done.
+    all: match goal with |- context [exec ?a ?b ?c ?l] => destruct (exec a b c l) as [[s1 cm]| |e|e] eqn:Hex end; try done.
+    all: try (intros [= <- <-]; by exists cm).
+    intros Hx. apply rbind_Next in Hx as (hs1 & _ & Heq). injection Heq as <- <-. by exists cm.
   Qed.
 
   (* the assign phase touches neither the event pool nor what InOrder reads *)
